@@ -18,7 +18,13 @@ import (
 	"github.com/usnistgov/dastard"
 )
 
-const syncTag = "VERIFSYNC"
+// The sentinel travels under a tag of its own whose lower-case form is on the no-save list: it is
+// remembered and replayed like any topic, but it neither reaches the configuration file nor re-arms the
+// delayed-save timer, so that whether a save is due depends on the case's own updates only.
+const syncTag = "aLiVe"
+
+var nosaveLower = map[string]bool{"channelnames": true, "alive": true, "triggerrate": true, "numberwritten": true,
+	"newdastard": true, "tesmap": true, "externaltrigger": true}
 
 // ---------- values ----------
 
@@ -415,12 +421,13 @@ func freePort() int {
 }
 
 type sentMsg struct {
-	ev    int // index into c.Ops, -1 for handshake / sentinel
-	tag   string
-	obj   string
-	text  string
-	sync  bool
-	shake bool
+	ev     int // index into c.Ops, -1 for handshake / sentinel
+	tag    string
+	obj    string
+	text   string
+	sync   bool
+	shake  bool
+	arming bool // a new value of a tag outside the no-save list (used only to choose how long a wait may last)
 }
 
 func runHist(c Case, scratch string, tags map[string]bool) (string, interface{}, bool) {
@@ -461,9 +468,14 @@ func runHist(c Case, scratch string, tags map[string]bool) (string, interface{},
 	var markers []marker
 
 	syncNo := 0
+	lastText := map[string]string{}
 	put := func(m sentMsg, state interface{}) {
 		m.obj = canonSent(m.tag, state)
 		m.text = mustJSON(state)
+		if m.tag != "SENDALL" && m.tag != "NEWDASTARD" {
+			m.arming = !nosaveLower[strings.ToLower(m.tag)] && lastText[m.tag] != m.text
+			lastText[m.tag] = m.text
+		}
 		sentLog = append(sentLog, m)
 		rec.send(m.tag, state)
 	}
@@ -527,8 +539,25 @@ func runHist(c Case, scratch string, tags map[string]bool) (string, interface{},
 				break
 			}
 			pos := len(sentLog)
-			// a save that begins once everything sent so far has been taken by the updater
-			deadline := time.Now().Add(12 * time.Second)
+			// a save that begins once everything sent so far has been taken by the updater; when none is
+			// expected (no save-worthy change since the last save) the wait is kept short
+			rec.mu.Lock()
+			lastSave := -1
+			for _, s := range rec.saves {
+				if s.pos > lastSave {
+					lastSave = s.pos
+				}
+			}
+			rec.mu.Unlock()
+			expect := lastSave < 0 // the timer created at start-up has not fired yet
+			for i := lastSave; i >= 0 && i < len(sentLog); i++ {
+				expect = expect || sentLog[i].arming
+			}
+			limit := 3500 * time.Millisecond
+			if expect {
+				limit = 20 * time.Second
+			}
+			deadline := time.Now().Add(limit)
 			saved := false
 			rec.mu.Lock()
 			before := len(rec.saves)
